@@ -157,4 +157,183 @@ Proof.
     destruct (C0 Z) as [Cd Cp]. destruct (Nat.eq_dec (g_dst e) (g_src e)) as [E|N]; [rewrite (Cd E) in Mb; discriminate|].
     specialize (Cp N). rewrite Mb, Mp in Cp. discriminate.
 Qed.
+
+(* ---- the graph handed back by pcmci_to_networkx, in networkx order ---- *)
+Let es' := nx_order n es.
+
+Lemma no_unknown : has_unknown r = false.
+Proof.
+  unfold has_unknown. destruct (existsb _ _) eqn:E; [exfalso|reflexivity].
+  apply existsb_exists in E. destruct E as ([[i j] l] & Hc & M). apply mark_eqb_eq in M.
+  destruct (consistent_at r i j l C Hc) as (NU & _). exact (NU M).
+Qed.
+
+Lemma to_graph_is : to_graph r false 0 = Some es'.
+Proof. unfold to_graph, to_graph_emitted. rewrite no_unknown. reflexivity. Qed.
+
+Lemma es_src_lt e : In e es -> g_src e < n.
+Proof. intros H. apply (emitted_src_lt r false 0 es e); [unfold to_graph_emitted; rewrite no_unknown; reflexivity|exact H]. Qed.
+
+Lemma es'_perm : Permutation es' es.
+Proof. apply nx_order_permutation. exact es_src_lt. Qed.
+
+Lemma es'_compat : compat es'.
+Proof. apply (compat_perm es es'); [apply Permutation_sym, es'_perm|exact es_compat]. Qed.
+
+Lemma in_es' x : In x es' <-> In x es.
+Proof. split; apply Permutation_in; [exact es'_perm|apply Permutation_sym, es'_perm]. Qed.
+
+Lemma emitted_in c x : In c (cells n L) -> In x (emit t false 0 c) -> In x es'.
+Proof. intros Hc Hx. apply in_es', es_in. exists c. split; assumption. Qed.
+
+Lemma findD_some i j l x : In x es' -> g_kind x = Directed -> g_src x = i -> g_dst x = j -> g_lag x = l ->
+  find (pD i j l) es' = Some x.
+Proof.
+  intros Hx K S D Lg. apply (find_unique Directed i j l es' x); [exact (c_keys _ es'_compat)|exact Hx|exact K|apply at3_true; auto].
+Qed.
+Lemma findP_some i j l x : In x es' -> g_kind x = PossibleDirected -> g_src x = i -> g_dst x = j -> g_lag x = l ->
+  find (pP i j l) es' = Some x.
+Proof.
+  intros Hx K S D Lg. apply (find_unique PossibleDirected i j l es' x); [exact (c_keys _ es'_compat)|exact Hx|exact K|apply at3_true; auto].
+Qed.
+
+(* absence of links, read off the pattern *)
+Lemma findD_none i j l : e_mark (get t (i, j, l)) <> Fwd ->
+  (In (j, i, l) (cells n L) -> e_mark (get t (j, i, l)) <> Bwd) -> find (pD i j l) es' = None.
+Proof.
+  intros NF NB. apply find_none_intro. intros x Hx. unfold pD. destruct (kind_eqb (g_kind x) Directed) eqn:K; [|reflexivity].
+  apply kind_eqb_eq in K. destruct (at3 i j l x) eqn:A; [exfalso|reflexivity]. apply at3_true in A. destruct A as (As & Ad & Al).
+  apply in_es' in Hx. destruct (directed_origin x Hx K) as [(_ & M & _)|(Hc & M & _)]; cbn zeta in M; rewrite As, Ad, Al in *.
+  - exact (NF M).
+  - exact (NB Hc M).
+Qed.
+Lemma findP_none i j l : e_mark (get t (i, j, l)) <> Poss -> find (pP i j l) es' = None.
+Proof.
+  intros NP. apply find_none_intro. intros x Hx. unfold pP. destruct (kind_eqb (g_kind x) PossibleDirected) eqn:K; [|reflexivity].
+  apply kind_eqb_eq in K. destruct (at3 i j l x) eqn:A; [exfalso|reflexivity]. apply at3_true in A. destruct A as (As & Ad & Al).
+  apply in_es' in Hx. destruct (poss_origin x Hx K) as (_ & M & _). cbn zeta in M. rewrite As, Ad, Al in M. exact (NP M).
+Qed.
+Lemma findS_none i j l : sym_mark (e_mark (get t (i, j, l))) = false -> sym_mark (e_mark (get t (j, i, l))) = false ->
+  find (pS i j l) es' = None.
+Proof.
+  intros N1 N2. apply find_none_intro. intros x Hx. unfold pS. destruct (sym_kind (g_kind x)) eqn:K; [|reflexivity].
+  destruct (at3 i j l x || at3 j i l x) eqn:A; [exfalso|reflexivity].
+  apply in_es' in Hx. destruct (sym_origin x Hx K) as (a & b & _ & _ & Sd & Sm & _).
+  apply orb_prop in A. destruct A as [A|A]; apply at3_true in A; destruct A as (As & Ad & Al); rewrite Al in Sm;
+    destruct Sd as [[Ea Eb]|[Ea Eb]]; rewrite <- Ea, <- Eb, ?As, ?Ad in Sm; congruence.
+Qed.
+
+Lemma entry_eqb_intro m v p e : e_mark e = m -> Qeq_bool v (e_val e) = true -> Qeq_bool p (e_p e) = true ->
+  entry_eqb {| e_mark := m; e_val := v; e_p := p |} e = true.
+Proof. intros <- Hv Hp. unfold entry_eqb. cbn. rewrite Hv, Hp. destruct (e_mark e); reflexivity. Qed.
+
+(* ---- every cell that carries a link is reproduced ---- *)
+Lemma cell_reproduced i j l : In (i, j, l) (cells n L) -> e_mark (get t (i, j, l)) <> Empty ->
+  entry_eqb (expected es' (i, j, l)) (get t (i, j, l)) = true.
+Proof.
+  intros Hc NE. pose proof (consistent_at r i j l C Hc) as CA. cbn zeta in CA. fold t in CA.
+  destruct CA as (NU & C0 & Cn & CS & CB).
+  assert (Hc' : In (j, i, l) (cells n L)) by (apply in_cells; apply in_cells in Hc; tauto).
+  pose proof (consistent_at r j i l C Hc') as CA'. cbn zeta in CA'. fold t in CA'. destruct CA' as (_ & C0' & Cn' & CS' & CB').
+  unfold expected. destruct (e_mark (get t (i, j, l))) eqn:M; try congruence.
+  - (* '-->' *)
+    set (x := mk_edge i j l (get t (i, j, l)) Directed None).
+    assert (Hx : In x es') by (apply (emitted_in (i, j, l)); [exact Hc|unfold emit; rewrite M; left; reflexivity]).
+    rewrite (findD_some i j l x Hx eq_refl eq_refl eq_refl eq_refl). apply entry_eqb_intro; [exact M|apply Qeq_bool_refl'|apply Qeq_bool_refl'].
+  - (* '<--' : lag 0, distinct nodes, mirror is '-->' or empty *)
+    destruct (Nat.eq_dec l 0) as [->|NZ]; [|exfalso; exact (Cn NZ eq_refl)].
+    destruct (C0 eq_refl) as [Cd Cp]. destruct (Nat.eq_dec i j) as [E|N]; [specialize (Cd E); discriminate|]. specialize (Cp N).
+    rewrite findD_none; [|congruence|].
+    2:{ intros _ B. rewrite B in Cp. discriminate. }
+    rewrite findP_none by congruence.
+    rewrite findS_none; [|rewrite M; reflexivity|destruct (e_mark (get t (j, i, 0))); try discriminate; reflexivity].
+    cbn [Nat.eqb andb]. assert (R : negb (Nat.eqb i j) = true) by (apply negb_true_iff, Nat.eqb_neq; exact N). rewrite R.
+    destruct (e_mark (get t (j, i, 0))) eqn:M'; try discriminate.
+    + (* mirror empty: the edge j -> i was emitted from this cell *)
+      set (x := mk_edge j i 0 (get t (i, j, 0)) Directed None).
+      assert (Hx : In x es').
+      { apply (emitted_in (i, j, 0)); [exact Hc|]. unfold emit. rewrite M, M'. cbn. left. reflexivity. }
+      rewrite (findD_some j i 0 x Hx eq_refl eq_refl eq_refl eq_refl). apply entry_eqb_intro; [exact M|apply Qeq_bool_refl'|apply Qeq_bool_refl'].
+    + (* mirror '-->': one link stored in two cells, same numbers *)
+      set (x := mk_edge j i 0 (get t (j, i, 0)) Directed None).
+      assert (Hx : In x es') by (apply (emitted_in (j, i, 0)); [exact Hc'|unfold emit; rewrite M'; left; reflexivity]).
+      rewrite (findD_some j i 0 x Hx eq_refl eq_refl eq_refl eq_refl).
+      destruct (CB eq_refl eq_refl) as [Qv Qp]. apply entry_eqb_intro; [exact M|apply Qeq_bool_sym; exact Qv|apply Qeq_bool_sym; exact Qp].
+  - (* 'o-o' *)
+    destruct (CS eq_refl) as [N Eq]. unfold entry_eqb in Eq. rewrite !andb_true_iff in Eq. destruct Eq as [[Em Ev] Ep].
+    apply mark_eqb_eq in Em. rewrite M in Em.
+    rewrite findD_none; [|congruence|intros _; congruence]. rewrite findP_none by congruence.
+    destruct (find (pS i j l) es') as [x|] eqn:F.
+    + apply find_some in F. destruct F as [Hx Px]. unfold pS in Px. apply andb_prop in Px. destruct Px as [K A].
+      apply in_es' in Hx. destruct (sym_origin x Hx K) as (a & b & Lt & _ & Sd & _ & Mk & Xv & Xp).
+      assert (Hab : (a = i /\ b = j) \/ (a = j /\ b = i)).
+      { apply orb_prop in A. destruct A as [A|A]; apply at3_true in A; destruct A as (As & Ad & _); destruct Sd as [[? ?]|[? ?]]; subst; auto. }
+      assert (Hl : g_lag x = l) by (apply orb_prop in A; destruct A as [A|A]; apply at3_true in A; tauto).
+      rewrite Hl in *. unfold ent. destruct Hab as [[-> ->]|[-> ->]].
+      * apply entry_eqb_intro; [congruence|rewrite Xv; apply Qeq_bool_refl'|rewrite Xp; apply Qeq_bool_refl'].
+      * apply entry_eqb_intro; [congruence|rewrite Xv; apply Qeq_bool_sym; exact Ev|rewrite Xp; apply Qeq_bool_sym; exact Ep].
+    + exfalso. (* a symmetric edge of the pair was emitted from the ordered cell *)
+      destruct (Nat.lt_ge_cases i j) as [Lt|Ge].
+      * set (x := mk_edge i j l (get t (i, j, l)) Undirected None).
+        assert (Hx : In x es').
+        { apply (emitted_in (i, j, l)); [exact Hc|]. unfold emit. rewrite M. destruct (Nat.ltb_spec i j); [left; reflexivity|lia]. }
+        pose proof (find_none _ _ F x Hx) as Px. unfold pS, at3, x in Px. cbn [mk_edge g_kind g_src g_dst g_lag sym_kind] in Px. rewrite !Nat.eqb_refl in Px. cbn in Px. discriminate.
+      * assert (Lt : j < i) by lia.
+        set (x := mk_edge j i l (get t (j, i, l)) Undirected None).
+        assert (Hx : In x es').
+        { apply (emitted_in (j, i, l)); [exact Hc'|]. unfold emit. rewrite <- Em. destruct (Nat.ltb_spec j i); [left; reflexivity|lia]. }
+        pose proof (find_none _ _ F x Hx) as Px. unfold pS, at3, x in Px. cbn [mk_edge g_kind g_src g_dst g_lag sym_kind] in Px.
+        rewrite !Nat.eqb_refl in Px. cbn [andb] in Px. rewrite orb_true_r in Px. discriminate.
+  - (* 'x-x' *)
+    destruct (CS eq_refl) as [N Eq]. unfold entry_eqb in Eq. rewrite !andb_true_iff in Eq. destruct Eq as [[Em Ev] Ep].
+    apply mark_eqb_eq in Em. rewrite M in Em.
+    rewrite findD_none; [|congruence|intros _; congruence]. rewrite findP_none by congruence.
+    destruct (find (pS i j l) es') as [x|] eqn:F.
+    + apply find_some in F. destruct F as [Hx Px]. unfold pS in Px. apply andb_prop in Px. destruct Px as [K A].
+      apply in_es' in Hx. destruct (sym_origin x Hx K) as (a & b & Lt & _ & Sd & _ & Mk & Xv & Xp).
+      assert (Hab : (a = i /\ b = j) \/ (a = j /\ b = i)).
+      { apply orb_prop in A. destruct A as [A|A]; apply at3_true in A; destruct A as (As & Ad & _); destruct Sd as [[? ?]|[? ?]]; subst; auto. }
+      assert (Hl : g_lag x = l) by (apply orb_prop in A; destruct A as [A|A]; apply at3_true in A; tauto).
+      rewrite Hl in *. unfold ent. destruct Hab as [[-> ->]|[-> ->]].
+      * apply entry_eqb_intro; [congruence|rewrite Xv; apply Qeq_bool_refl'|rewrite Xp; apply Qeq_bool_refl'].
+      * apply entry_eqb_intro; [congruence|rewrite Xv; apply Qeq_bool_sym; exact Ev|rewrite Xp; apply Qeq_bool_sym; exact Ep].
+    + exfalso.
+      destruct (Nat.lt_ge_cases i j) as [Lt|Ge].
+      * set (x := mk_edge i j l (get t (i, j, l)) Conflicting None).
+        assert (Hx : In x es').
+        { apply (emitted_in (i, j, l)); [exact Hc|]. unfold emit. rewrite M. destruct (Nat.ltb_spec i j); [left; reflexivity|lia]. }
+        pose proof (find_none _ _ F x Hx) as Px. unfold pS, at3, x in Px. cbn [mk_edge g_kind g_src g_dst g_lag sym_kind] in Px. rewrite !Nat.eqb_refl in Px. cbn in Px. discriminate.
+      * assert (Lt : j < i) by lia.
+        set (x := mk_edge j i l (get t (j, i, l)) Conflicting None).
+        assert (Hx : In x es').
+        { apply (emitted_in (j, i, l)); [exact Hc'|]. unfold emit. rewrite <- Em. destruct (Nat.ltb_spec j i); [left; reflexivity|lia]. }
+        pose proof (find_none _ _ F x Hx) as Px. unfold pS, at3, x in Px. cbn [mk_edge g_kind g_src g_dst g_lag sym_kind] in Px.
+        rewrite !Nat.eqb_refl in Px. cbn [andb] in Px. rewrite orb_true_r in Px. discriminate.
+  - (* '-?>' *)
+    rewrite findD_none; [|congruence|].
+    2:{ intros _ B. destruct (Nat.eq_dec l 0) as [->|NZ]; [|exact (Cn' NZ B)].
+        destruct (C0' eq_refl) as [Cd' Cp']. destruct (Nat.eq_dec j i) as [E|N]; [rewrite (Cd' E) in B; discriminate|].
+        specialize (Cp' N). try rewrite B in Cp'. try rewrite M in Cp'. discriminate. }
+    set (x := mk_edge i j l (get t (i, j, l)) PossibleDirected None).
+    assert (Hx : In x es') by (apply (emitted_in (i, j, l)); [exact Hc|unfold emit; rewrite M; left; reflexivity]).
+    rewrite (findP_some i j l x Hx eq_refl eq_refl eq_refl eq_refl). apply entry_eqb_intro; [exact M|apply Qeq_bool_refl'|apply Qeq_bool_refl'].
+Qed.
+
+(* PCMCI -> graph -> PCMCI reproduces mark, value and p at every entry that carries a link *)
+Theorem pcmci_roundtrip : pcmci_roundtrip_ok r = true.
+Proof.
+  unfold pcmci_roundtrip_ok. rewrite to_graph_is. apply forallb_forall. intros [[i j] l] Hc. fold t n L in Hc |- *.
+  destruct (mark_eqb (e_mark (get t (i, j, l))) Empty) eqn:E; [reflexivity|]. cbn [orb].
+  rewrite (to_pcmci_characterised n es' es'_compat). apply cell_reproduced; [exact Hc|].
+  intros M. rewrite M in E. discriminate.
+Qed.
 End RT.
+
+(* non-vacuity: a consistent 3-node, 2-lag pattern with a mirrored contemporaneous link, a symmetric link,
+   a lagged '-->' and a '-?>' *)
+Example consistent_instance :
+  let r := {| p_n := 3; p_lags := 2; p_tab := mk_tab
+     [(0, 1, 0, Fwd, 1 # 2, 1 # 10); (1, 0, 0, Bwd, 1 # 2, 1 # 10); (0, 2, 0, OO, 1 # 3, 1 # 5); (2, 0, 0, OO, 1 # 3, 1 # 5);
+      (1, 2, 1, Fwd, 1 # 4, 1 # 7); (2, 2, 1, Poss, 1 # 8, 1 # 9)] |} in
+  consistent r = true /\ pcmci_roundtrip_ok r = true.
+Proof. vm_compute. split; reflexivity. Qed.
